@@ -228,4 +228,46 @@ theorem assert_kinds_old_order_depends_on_state :
     ∧ (KM.assertKinds ⟨[(7, 1)], 2⟩ [9, 7]).2 = [2, 1]
     ∧ ((KM.assertKinds ⟨[(7, 1)], 2⟩ [9, 7]).1.assertKinds [9, 7]).2 = [2, 1] := by decide
 
+/-- **kind_ids_never_change**: once a kind has an id (it was registered by anyone, or `AssertKinds` returned it to some
+goroutine), EVERY continuation of the history — any number of other goroutines, any kind lists, any interleaving of their
+critical sections — leaves that kind registered under the very same id. So the kind-id array one translation was handed
+is what every concurrent and every later translation of the same query is handed (with `assert_kinds_repeatable`: in
+the same positions). -/
+theorem kind_ids_never_change (g : KM) (pcs : List KMPC) (sched : List Nat) (k : Nat) (h : g.has k = true) :
+    (kmRun true ⟨g, pcs⟩ sched).g.has k = true ∧ (kmRun true ⟨g, pcs⟩ sched).g.idOf k = g.idOf k :=
+  kmRun_stable sched ⟨g, pcs⟩ k h
+
+/-- non-vacuity: two goroutines race for kinds 5 and 6; whatever id 5 received is still its id three more calls later -/
+example : (kmRun true ⟨KM.new, [.start [5, 6], .start [6, 5]]⟩ [0, 1, 0, 1, 0, 1, 0, 1]).g.idOf 5 = 1 ∧
+    (kmRun true ⟨(kmRun true ⟨KM.new, [.start [5, 6], .start [6, 5]]⟩ [0, 1, 0, 1, 0, 1, 0, 1]).g, [.start [9, 6, 5]]⟩ [0, 0, 0, 0]).g.idOf 5 = 1 := by decide
+
+/-! ### the full statement -/
+
+/-- what a caller can observe of one call -/
+structure Observed (Out AST Params : Type) where
+  result : Out          -- status, error text, SQL bytes, result parameters
+  astAfter : AST        -- the caller's AST after the call
+  paramsAfter : Params  -- the caller's parameter map after the call
+
+/-- **C05_full** — the whole property, stated over an abstract implementation `runAll σ km q ps n`: `n` invocations of
+`Translate(q, ps)` (sequential repeats and concurrent goroutines alike) under the interleaving `σ` against one kind
+mapper that starts in the consistent state `km`; `none` = some invocation panicked or did not return.
+
+NOT PROVED for the Go translator (there is no Lean model of its 22k lines). What carries each conjunct:
+* `∃ obs … = some obs` (total, bounded): SEARCHED; proved only for walk.Generic (`generic_terminates`,
+  `generic_stops_at_first_error`), narrowed by `Facts.unguarded_partial_sites_known`;
+* `astAfter = q`: `optimize_isolated` + `Facts.caller_query_only_copied` + `Facts.inputs_not_written` + one trusted step;
+* `paramsAfter = ps`: `Facts.parameter_map_copied` + `Facts.inputs_not_written` + `Facts.library_values_not_written` + the same step;
+* equal results: `fold_perm_invariant` and instances + `Facts.no_order_sensitive_range` + `Facts.sort_comparators_total` +
+  `Facts.no_nondeterminism_sources` + `Facts.no_shared_mutable_state` + one trusted step (a sequential Go program without
+  these constructs is a function of its inputs), and for the one shared object `assert_kinds_idempotent`,
+  `assert_kinds_repeatable`, `kind_ids_never_change` + `Facts.kind_mapper_locked` / `…_check_then_act` /
+  `kinds_interned_atomically` / `assert_kinds_order`. -/
+def C05_full {Sched KMS AST Params Out : Type} (consistent : KMS → Prop)
+    (runAll : Sched → KMS → AST → Params → Nat → Option (List (Observed Out AST Params))) : Prop :=
+  ∀ σ km q ps n, consistent km →
+    ∃ obs, runAll σ km q ps n = some obs ∧ obs.length = n
+      ∧ (∀ o ∈ obs, o.astAfter = q ∧ o.paramsAfter = ps)
+      ∧ (∀ o ∈ obs, ∀ o' ∈ obs, o.result = o'.result)
+
 end Dawgs.C05.Props
